@@ -160,6 +160,7 @@ func (g *GoChannel) sendMessage(topic string, message *message.Message) (<-chan 
 		wg := &sync.WaitGroup{}
 
 		for i := range subscribers {
+			verifhook.Point("gochannel.dispatch.next", topic)
 			subscriber := subscribers[i]
 
 			wg.Add(1)
